@@ -228,6 +228,8 @@ def c03_params(max_items=6):
         opposite=st.lists(payloads(), max_size=3),
         closer_receiver=st.booleans(),
         wrap=st.sampled_from(["bare", "list", "tuple", "dict"]),
+        # the closing side pauses until every other thread has settled (blocked receivers and waitclose callers)
+        pause=st.sampled_from(["none", "none", "before_close", "before_items"]),
     )).map(_c03_normalise)
 
 
@@ -256,7 +258,11 @@ def c03_conversation(conv, p):
     c_ops = []
     if p["closer_receiver"]:
         c_ops.append(["spawn", "crcv", [["recv_until", ch, 0]]])
+    if p.get("pause") == "before_items":
+        c_ops.append(["sleep", 0.2])
     c_ops += [["send", ch, it] for it in items]
+    if p.get("pause") == "before_close":
+        c_ops.append(["sleep", 0.2])
     if p["how"] == "close":
         c_ops += [["close", ch], ["note", "after-close"], ["send", ch, {"l": ["late"]}], ["isclosed", ch], ["waitclose", ch, 0.5],
                   ["close", ch]]
@@ -285,6 +291,10 @@ def c03_conversation(conv, p):
         p_ops += [["note", "observed-close"], ["send", ch, {"l": ["late"]}], ["isclosed", ch], ["waitclose", ch, 0.5]]
         if peer_may_close:
             p_ops += [["close", ch]]
+    elif peer_may_close:
+        # "sendonly": the peer may still close its own side, and is then a closing side in its own right
+        p_ops += [["close", ch], ["note", "own-close"], ["send", ch, {"l": ["late"]}], ["isclosed", ch], ["waitclose", ch, 0.5],
+                  ["close", ch]]
     # ---- assemble: who creates the sub channel, who runs which script
     a_pre, b_pre = [], []
     if p["chan"] == "sub_a":
@@ -373,6 +383,8 @@ def check_c03(result, ex, clause="close"):
         post(plogs.get(f"{peer}:{conv}:main", []), ["note", "observed-close"], "peer", ex["peer_may_close"])
     if ex["how"] == "close":
         post(clogs.get(f"{closer}:{conv}:main", []), ["note", "after-close"], "closing side")
+    if ex["how"] == "drop_cb" and ex["peer_may_close"]:
+        post(plogs.get(f"{peer}:{conv}:main", []), ["note", "own-close"], "peer after its own close()")
     if ex["closer_receiver"]:
         log = clogs.get(f"{closer}:{conv}:crcv", [])
         items = [e[1] for e in log if e[0] == "item"]
